@@ -423,13 +423,37 @@ def stream_periodic(ctx, n):
                 ctx.violation(what, c2, sig)
 
 
+def stream_corpus(ctx):
+    """corpus/C18/*.json first: the witnesses the Lean examples `decide`, replayed on the driver
+    and on the real policy."""
+    import glob
+    import json
+    import os
+    from vlib.core import VERIF
+    for path in sorted(glob.glob(os.path.join(VERIF, 'corpus', 'C18', '*.json'))):
+        with open(path) as f:
+            item = json.load(f)
+        case = item['case']
+        before, after, info = run_impl(case)
+        margs, remaining = model_input(case, after, info)
+        mo = ctx.driver().call('expire.evaluate', margs)
+        impl_out = {'outcome': info['outcome'], 'remaining': sorted(remaining)}
+        mo = {'outcome': mo['outcome'], 'remaining': sorted(mo['remaining'])}
+        ctx.evaluated('corpus', os.path.basename(path), nontrivial=True)
+        if not (mo == impl_out == item['expect']):
+            ctx.disagree('corpus', {'file': os.path.basename(path), 'expect': item['expect']}, mo, impl_out)
+        for what, sig in monitor(case['cfg'], case['now'], before, after, info):
+            ctx.violation(what, case, sig)
+
+
 def correspond(ctx, search_mode=False):
     from harness import expire_driver as ed
     ed.setup()
     stream_defaults(ctx)
     stream_enabled(ctx)
-    n_main = ctx.n(300, 20000)
-    n_fault = ctx.n(40, 1500)
+    stream_corpus(ctx)
+    n_main = ctx.n(1500, 20000)
+    n_fault = ctx.n(150, 1500)
     for i in range(n_main):
         run_case(ctx, 'expire', gen_case(ctx.rng))
     for i in range(n_fault):
@@ -444,7 +468,7 @@ def correspond(ctx, search_mode=False):
     else:
         # a seeded slice of the exhaustive enumeration
         allc = list(small_cases())
-        for case in ctx.rng.sample(allc, 150):
+        for case in ctx.rng.sample(allc, 800):
             run_case(ctx, 'expire-small', case)
 
 
@@ -470,6 +494,14 @@ def search(ctx):
 def replay(ctx, rep):
     from harness import expire_driver as ed
     ed.setup()
+    if 'replay' not in rep:
+        # a "no longer checks" file: re-run the disagreeing cases it lists, then the streams
+        for b in rep.get('no_longer_checks', []):
+            d = b.get('detail')
+            if isinstance(d, dict) and isinstance(d.get('case'), dict) and 'pop' in d['case']:
+                hits, same = run_case(ctx, b['name'], d['case'], record=False)
+                print('replay: stream %s case agrees with the model: %s' % (b['name'], same))
+        return
     case = rep['replay']
     before, after, info = run_impl(case)
     print('replay: outcome=%s deleted=%s' % (info['outcome'], sorted(set(before) - set(after))))
